@@ -159,7 +159,11 @@ VS_ARGS = {'weighted': g_weighted}
 VV = {'square': h_square, 'pair': h_pair, 'resid': h_resid, 'matrix': h_matrix,
       'hscalar': h_scalar}
 
-ALL = {}
+def p_vsum(r):
+    return np.sum(r, axis=0)
+
+
+ALL = {'vsum': p_vsum}
 for _d in (SS, SS_ARGS, VS, VS_ARGS, VV):
     ALL.update(_d)
 
